@@ -10,7 +10,8 @@ from vengine import smt, zprox
 from vengine.symnp import patched
 
 META = {
-    'explanation': 'The real CIFread (driven through its cifblk= parameter with a dict-like block), remove_esd, PDBread (open() rebound to an in-memory file) '
+    'explanation': 'Reader history: the atom-type-loop variants are read by fresh readers in one process in a sequence containing every ordered pair of variants, consecutive files with different elements. '
+                   'The real CIFread (driven through its cifblk= parameter with a dict-like block), remove_esd, PDBread (open() rebound to an in-memory file) '
                    'and atomlist.add_atom are executed on files whose numeric fields are opaque tokens: the string operations of the code (find, slicing, '
                    'split, regex sub, upper, fixed-width column slices) run for real on the token text, float()/int() are rebound to a stub that maps a '
                    '(whitespace-padded) token to a solver real and raises ValueError for anything else, so a wrong slice or a wrong key shows as a value that '
